@@ -184,3 +184,11 @@ def key_position(d, k):
 def sort_position(sorted_list, p):
     """Native meaning is not needed (used in ghost code of proofs only)."""
     raise NotImplementedError
+
+
+def dumped(k):
+    raise NotImplementedError("proof-only vocabulary")
+
+
+def dump_count():
+    raise NotImplementedError("proof-only vocabulary")
